@@ -817,6 +817,13 @@ func FuzzC07(f *testing.F) {
 // blocksDigest renders what a caller can observe of returned blocks, restricted
 // to logs matching (addrs, topic0) when given.
 func blocksDigest(blocks []eth.Block, logFilter func(l *eth.Log) bool) string {
+	return blocksDigestPlan(blocks, logFilter, nil)
+}
+
+// blocksDigestPlan restricts the digest to what the caller's data plan covers
+// (a shared cached block may carry more: logs, receipt fields or traces that
+// other callers asked for).
+func blocksDigestPlan(blocks []eth.Block, logFilter func(l *eth.Log) bool, plan *glf.Filter) string {
 	var sb strings.Builder
 	for i := range blocks {
 		b := &blocks[i]
@@ -828,17 +835,44 @@ func blocksDigest(blocks []eth.Block, logFilter func(l *eth.Log) bool) string {
 		sort.Slice(txs, func(x, y int) bool { return b.Txs[txs[x]].Idx < b.Txs[txs[y]].Idx })
 		for _, j := range txs {
 			tx := &b.Txs[j]
-			fmt.Fprintf(&sb, " T%d h=%x in=%x v=%s st=%d gu=%d to=%x", tx.Idx, tx.PrecompHash, tx.Data, tx.Value.Dec(), tx.Status, tx.GasUsed, tx.To)
-			ls := append(eth.Logs{}, tx.Logs...)
-			sort.Slice(ls, func(x, y int) bool { return ls[x].Idx < ls[y].Idx })
-			for k := range ls {
-				if logFilter != nil && !logFilter(&ls[k]) {
+			if plan != nil && !plan.UseBlocks && !plan.UseReceipts {
+				// transactions exist in this plan only as carriers of the caller's logs / traces
+				relevant := plan.UseTraces && len(tx.TraceActions) > 0
+				if plan.UseLogs {
+					for k := range tx.Logs {
+						if logFilter == nil || logFilter(&tx.Logs[k]) {
+							relevant = true
+						}
+					}
+				}
+				if !relevant {
 					continue
 				}
-				fmt.Fprintf(&sb, " L%d a=%x d=%x tp=%x", ls[k].Idx, ls[k].Address, ls[k].Data, ls[k].Topics)
 			}
-			for k, ta := range tx.TraceActions {
-				fmt.Fprintf(&sb, " A%d %x>%x %s %s", k, ta.From, ta.To, ta.Value.Dec(), ta.CallType)
+			fmt.Fprintf(&sb, " T%d h=%x", tx.Idx, tx.PrecompHash)
+			if plan == nil || plan.UseBlocks {
+				fmt.Fprintf(&sb, " in=%x v=%s", tx.Data, tx.Value.Dec())
+			}
+			if plan == nil || plan.UseBlocks || plan.UseReceipts {
+				fmt.Fprintf(&sb, " to=%x", tx.To)
+			}
+			if plan == nil || plan.UseReceipts {
+				fmt.Fprintf(&sb, " st=%d gu=%d", tx.Status, tx.GasUsed)
+			}
+			if plan == nil || plan.UseLogs || plan.UseReceipts {
+				ls := append(eth.Logs{}, tx.Logs...)
+				sort.Slice(ls, func(x, y int) bool { return ls[x].Idx < ls[y].Idx })
+				for k := range ls {
+					if logFilter != nil && !logFilter(&ls[k]) {
+						continue
+					}
+					fmt.Fprintf(&sb, " L%d a=%x d=%x tp=%x", ls[k].Idx, ls[k].Address, ls[k].Data, ls[k].Topics)
+				}
+			}
+			if plan == nil || plan.UseTraces {
+				for k, ta := range tx.TraceActions {
+					fmt.Fprintf(&sb, " A%d %x>%x %s %s", k, ta.From, ta.To, ta.Value.Dec(), ta.CallType)
+				}
 			}
 		}
 		sb.WriteString("\n")
